@@ -53,6 +53,20 @@ add("C19", "fs_mc", "fault_enumeration",
     "For every plan between two artifact sets of a reduced universe and for the first-compile plan: every operation index x {fails before effect, torn write} x {same watch session, fresh process} x a family of continuations (retry, revert, other sets); after the next fault-free compile the directory must equal its artifact set.",
     fs_note, "exhaustive fault-point enumeration through a cfg fault-injection hook in apply_file_system_operations", "2/C19")
 
+lang_note = ("Trusted: the reference grammar mc/core/src/isogen.rs (enumerator of literal shapes; names and values from tiny alphabets), token budgets reported in evidence.")
+add("C07", "lang_mc", "exploration",
+    "Every sentence of a reference grammar of iso literals up to N tokens, every token-level prefix of a sentence extended by each token of a 39-token alphabet (keywords, punctuators, strings incl. non-BMP and unterminated, block strings, numbers incl. out-of-range/leading-zero/float forms, junk), and every single separator deviation, is parsed by the real parser with and without export name at two file offsets; no panic, Ok xor one diagnostic, every span of the AST (found in its Debug rendering), of the semantic tokens and of the diagnostic inside the literal on char boundaries, tokens strictly increasing.",
+    lang_note, "bounded exhaustive grammar-directed input enumeration on the real parser", "2/C07")
+add("C31", "lang_mc", "exploration",
+    "Every text over {a, é, newline} up to length L x every non-empty span on char boundaries x outer offsets x colour modes through the real text_with_carats; the output must be a window of a reference excerpt with one caret per character and the reported row must be the start line.",
+    "Trusted: the 30-line reference excerpt; number of context lines is not part of the property.", "bounded exhaustive input enumeration vs reference model", "2/C31")
+add("C32", "lang_mc", "exploration",
+    "Every accepted grammar sentence up to N tokens (rich alphabet, canonical and tight layout) x every offset: the real resolve() result must be a node of an independently walked syntax tree (same address and kind), contain the offset together with all ancestors, have no child containing it, and carry the tree's ancestor chain.",
+    lang_note + " The hand-written syntax tree walk lists the node kinds IsographResolvedNode can name.", "bounded exhaustive input x offset enumeration vs independent tree walk", "2/C32")
+add("C33", "lang_mc", "exploration",
+    "Every content of <= N segments over a signing-related alphabet containing the signing token 1-3 times is signed and verified; then every single-character replace/delete/insert at every position outside the hex signature must break verification.",
+    "Trusted: md5 via the crate's own dependency; contents with bare NEWTOKEN or pre-signed markers are not enumerated.", "bounded exhaustive input and edit enumeration", "2/C33")
+
 props = [json.loads(l)["id"] for l in open(os.path.join(ROOT, "properties.jsonl"))]
 claimed = {c["property_id"] for c in checks}
 hook_commits = subprocess.run(["git", "-C", "/repo", "log", "--format=%h %s", "cd9f374..HEAD"], capture_output=True, text=True).stdout.splitlines()
@@ -70,6 +84,7 @@ m = {
     "engines": [
         {"name": "pico_mc", "path": "/verif/mc/pico_mc", "serves_properties": ["C01", "C02", "C03", "C04"], "kind_free_text": "explicit-state history explorer (seqx) driving the real pico crate against a reference evaluator + ideal incremental engine; pairwise key-space check for #[memo]"},
         {"name": "fs_mc", "path": "/verif/mc/fs_mc", "serves_properties": ["C18", "C19"], "kind_free_text": "explicit-state exploration of artifact-directory sessions and exhaustive fault-point enumeration on the real planner/applier over a real directory in /dev/shm"},
+        {"name": "lang_mc", "path": "/verif/mc/lang_mc", "serves_properties": ["C07", "C31", "C32", "C33"], "kind_free_text": "bounded-exhaustive input explorers (grammar-directed token enumeration, text/span enumeration) on the real parser, excerpt renderer, position resolver and signer"},
         {"name": "intern_mc", "path": "/verif/mc/intern_mc", "serves_properties": ["C05", "C06"], "kind_free_text": "loom models over the real intern crate (cfg shim) + bounded-exhaustive sequential sweep"},
     ],
     "checks": checks,
